@@ -266,6 +266,11 @@ func (it *Interp) constValue(c *ssa.Const) Value {
 // runGoroutines executes until all goroutines are done or blocked.
 func (it *Interp) runLoop() {
 	for {
+		// Go semantics: the program ends when the main goroutine returns,
+		// whatever other goroutines (tickers, refreshers) are still doing.
+		if len(it.gs) > 0 && it.gs[0].state == gDone {
+			return
+		}
 		g := it.pickRunnable()
 		if g == nil {
 			return
